@@ -8,6 +8,7 @@ git -C /repo archive HEAD | tar -x -C "$D"
 set +e
 FA_OUT_DIR="$D/_verif_out" FA_REPO="$D" /verif/check "$PROP" --tier "$TIER" > "$D/out.txt" 2>&1
 rc=$?
-grep -E "^VIOLATION|^KNOWN-FINDING|MACHINERY|tier=" "$D/out.txt" | cut -c1-260 | head -12
+grep -E "^VIOLATION|MACHINERY|tier=" "$D/out.txt" | cut -c1-260 | head -8
+echo "known-finding lines: $(grep -c "^KNOWN-FINDING" "$D/out.txt")"
 echo "exit=$rc"
 rm -rf "$D"
